@@ -972,6 +972,12 @@ def h_atomic(ex, st, frame, t, nf, args, dty):
     raise Unsupported("atomic op " + op)
 
 
+def h_atomic_new(ex, st, frame, t, nf, args, dty):
+    o = Obj(dty)
+    o.fields[(None, 7002)] = args[0]
+    return [(o, None)]
+
+
 def h_async_lock(ex, st, frame, t, nf, args, dty):
     """async_lock / tokio RwLock::{read, write, upgradable_read}: a future that yields a guard; the guard is a
     reference to the protected data (pseudo-field 7000).  Contention, fairness and deadlock are outside the model."""
@@ -1574,6 +1580,7 @@ STD_SUMMARIES = [
     (r"^<.* as (std::default::)?Default>::default$", h_default),
     (r"^(async_lock::|tokio::sync::|async_lock::rwlock::|tokio::sync::rwlock::)?RwLock::(read|write|upgradable_read)$", h_async_lock),
     (r"^<(async_lock::|tokio::sync::)?(\w+::)*RwLock(Write|Read|UpgradableRead|Mapped\w*)Guard as (std::ops::)?Deref(Mut)?>::deref(_mut)?$", h_guard_deref),
+    (r"(^|::)Atomic(U8|U16|U32|U64|Usize|Bool|I32|I64|Isize)?::new$", h_atomic_new),
     (r"(^|::)Atomic(U8|U16|U32|U64|Usize|Bool|I32|I64|Isize)?::(load|store|fetch_add|fetch_sub|fetch_max|fetch_min|fetch_or|fetch_and|swap|compare_exchange|compare_exchange_weak)$", h_atomic),
     (r"^<(std::sync::|std::rc::|std::boxed::|alloc::\w+::)?(Arc|Rc|Box|ManuallyDrop) as (std::ops::)?Deref(Mut)?>::deref(_mut)?$", h_smart_deref),
     (r"^(std::option::)?Option::and_then$", h_option_and_then),
